@@ -15,20 +15,20 @@ Emit(S) == \A s \in S : SigLine(inst, l, s)
 Has(r, f) == f \in DOMAIN r
 
 TInit == /\ l = 1 /\ inst = 0 /\ initLen = 0
-         /\ FInitState([timescale |-> 90000, fragms |-> 2000, vc |-> "h264"])
+         /\ FInitState([timescale |-> 90000, fragms |-> 2000, vc |-> "h264", judge_config |-> FALSE])
 
 IsEv(e) == l <= Len(Rec) /\ Rec[l].ev = e
 Crashed(e) == e.var \in {"panic", "hang"}
 TotalSigs(op, e) ==
-    IF e.var = "panic" THEN {FSig("C12", "Total", op, << "panic", e.msg >>)}
+    IF e.var = "panic" THEN {FSig("C12", "Total", op, ToString(<< "panic", e.msg >>))}
     ELSE IF e.var = "hang" THEN {FSig("C12", "Terminates", op, "hang")} ELSE {}
 
 TNew == /\ IsEv("new") /\ l' = l + 1 /\ inst' = Rec[l].i /\ initLen' = 0
         /\ fcfg' = Rec[l].cfg /\ pending' = << >> /\ lastDts' = None /\ seqno' = 1 /\ emitted' = << >>
         /\ accepted' = 0 /\ flushedN' = 0 /\ cadence' = None /\ initSeen' = FALSE
-        /\ Emit((IF Rec[l].var = "panic" THEN {FSig("C12", "Total", "new_with_fragment", << "panic", Rec[l].msg >>)} ELSE {})
+        /\ Emit((IF Rec[l].var = "panic" THEN {FSig("C12", "Total", "new_with_fragment", ToString(<< "panic", Rec[l].msg >>))} ELSE {})
                 \cup (IF Has(Rec[l], "must_build") /\ Rec[l].must_build # Rec[l].ok /\ Rec[l].var # "panic"
-                      THEN {FSig("C04", "Legal", "new_with_fragment", IF Rec[l].ok THEN "accepted" ELSE << "rejected", Rec[l].var >>)} ELSE {}))
+                      THEN {FSig("C04", "Legal", "new_with_fragment", IF Rec[l].ok THEN "accepted" ELSE ToString(<< "rejected", Rec[l].var >>))} ELSE {}))
 
 TWrite == /\ IsEv("f_write") /\ l' = l + 1 /\ UNCHANGED << inst, initLen >>
           /\ LET e == Rec[l] IN
